@@ -251,7 +251,7 @@ STRTO = {'to_long': 'strtol', 'to_ulong': 'strtoul', 'to_long_long': 'strtoll', 
          'to_int': 'strtol', 'to_uint': 'strtoul', 'to_float': 'strtof', 'to_double': 'strtod'}
 
 
-def parsers(run, m, F, E):
+def parsers(run, m, F, E, floats=False):
     L = own.buffer_layout(m, 'char')
     n = 0
     for name in F.lib:
@@ -259,13 +259,18 @@ def parsers(run, m, F, E):
         mt = re.match(r'^ST::string::(to_\w+)\(ST::conversion_result&(, int)?\) const$', f.dem)
         if not mt or mt.group(1) not in STRTO:
             continue
+        if (mt.group(1) in ('to_float', 'to_double')) != floats:
+            continue
         # wrappers that narrow (to_int / to_uint) delegate to to_long / to_ulong: judged through their callee
         delegates = [m.dem(t) for (i, ts, k) in F.calls[name] for t in ts if re.match(r'^ST::string::to_\w+\(ST::conversion_result&', m.dem(t))]
         n += 1
-        if delegates:
-            run.ob('R12.4', short(f.dem), True, 'delegates to ' + delegates[0].split('(')[0], disc='delegate')
-            continue
         want = STRTO[mt.group(1)]
+        if delegates:
+            tgt = delegates[0].split('(')[0].split('::')[-1]
+            same = STRTO.get(tgt) == want
+            run.ob('R12.4', short(f.dem), same, 'delegates to %s (same %s family)' % (tgt, want) if same else
+                   'delegates to %s, which parses with %s instead of %s: the value is rounded twice' % (tgt, STRTO.get(tgt), want), disc='delegate', loc=fn_loc(f))
+            continue
         problems, und = [], []
         for cls in ('small', 'large'):
             I = Interp(m, F, E, SliceHooks(m))
@@ -335,6 +340,26 @@ def parsers(run, m, F, E):
     return n
 
 
+def plain_parsers(run, m, F, floats=False):
+    """to_*() overloads without conversion_result: the matching strto* (or a member of the same family) on c_str()."""
+    n = 0
+    for name in F.lib:
+        f = m.func(name)
+        mt = re.match(r'^ST::string::(to_\w+)\((int)?\) const$', f.dem)
+        if not mt or mt.group(1) not in STRTO:
+            continue
+        if (mt.group(1) in ('to_float', 'to_double')) != floats:
+            continue
+        n += 1
+        want = STRTO[mt.group(1)]
+        callees = [m.dem(t).split('(')[0] for (i, ts, k) in F.calls[name] for t in ts]
+        direct = [c for c in callees if c in STRTO.values()]
+        deleg = [c.split('::')[-1] for c in callees if c.startswith('ST::string::to_')]
+        ok = direct == [want] or (not direct and len(deleg) == 1 and STRTO.get(deleg[0]) == want)
+        run.ob('R12.4', short(f.dem), ok, 'parses with %s' % want if ok else 'expected %s on c_str(), found %s' % (want, direct + deleg), disc='plain', loc=fn_loc(f))
+    return n
+
+
 def check(run):
     m = run.module()
     F = run.facts()
@@ -344,6 +369,7 @@ def check(run):
     run.assume('bases 2..36 (the property\'s range); what strto* returns and that division yields the right digits is libc / arithmetic, not analysed')
     run.floor('signed integer printers', printers(run, m, F, E), 10)
     run.floor('uint_formatter instantiations', digit_loop(run, m, F, E), 4)
-    run.floor('parsing members with conversion_result', parsers(run, m, F, E), 7)
+    run.floor('parsing members with conversion_result', parsers(run, m, F, E), 6)
+    run.floor('plain parsing members', plain_parsers(run, m, F), 6)
     for o in run.obs[:2] + [o for o in run.obs if o['rule'] == 'R12.3'][:2] + [o for o in run.obs if o['rule'] == 'R12.4'][:2]:
         run.sample(dict(rule=o['rule'], subject=o['subject'], case=o['disc'], verdict=o['verdict'], detail=o['detail'][:160]))
